@@ -8,6 +8,12 @@ package main
 //   - reaching definitions of a cell (which store, or the walk itself, decides what a load sees);
 //   - c20Tree: the call tree including functions that are only handed over as values (method values, function values);
 //   - c20CertifyByteScan: the file-name validator written as a scan over the bytes of the name.
+//   - c20Frames: the decision table across helper frames — a helper of Install is interpreted where the path reaches
+//     its call, with what the path knows about the arguments; its outcomes bind its results and carry the effects on
+//     the plugin directory it performed (third pass: effects in helper frames, c20EnumEffects / c20DeepSel / c20Origin);
+//   - c20Read / c20RecordOf / c20RecordsQuiet: what the source parser returns, read from what the walk left in a shared
+//     cell directly, through the record the cell points to, or through element 0 of the list in the cell (third pass:
+//     candidates as records).
 
 import (
 	"fmt"
@@ -1143,7 +1149,11 @@ func c20FindLookup(w *World, INST *ssa.Function) (*c20Lookup, string) {
 type c20Res struct {
 	vals   []AVal         // per result
 	fields []map[int]AVal // per struct-typed result: its bool fields (a missing entry: unknown)
+	trace  []c20Eff       // the effects on the plugin directory performed on this path through the helper, in order
 }
+
+// c20Eff: one effect on the plugin directory, as the decision table sees it.
+type c20Eff struct{ kind, name string }
 
 func (r *c20Res) key() string {
 	var sb strings.Builder
@@ -1161,6 +1171,9 @@ func (r *c20Res) key() string {
 		}
 		sb.WriteString("|")
 	}
+	for _, e := range r.trace {
+		sb.WriteString(e.kind + ":" + e.name + ";")
+	}
 	return sb.String()
 }
 
@@ -1171,6 +1184,24 @@ type c20Frames struct {
 	over   bool
 	paths  int
 	stack  map[*ssa.Function]bool
+	items  map[*ssa.BasicBlock][]c20Item // the effect calls and the interpreted helper calls, per block, in instruction order
+	// the helpers with effects on the plugin directory inside: they must be followed, an unknown outcome is no answer
+	effectful map[*ssa.Function]bool
+}
+
+// c20Item: an effect call (leaf), or an interpreted helper call whose outcomes carry the effects performed inside.
+type c20Item struct {
+	call *ssa.Call
+	leaf bool
+	eff  c20Eff
+}
+
+// c20Ctx: what is known about one frame while it is interpreted: the outcomes chosen for its interpreted helper calls,
+// the bool fields of the struct objects its parameters point to, and the abstract values of its parameters.
+type c20Ctx struct {
+	choice map[*ssa.Call]*c20Res
+	pf     map[*ssa.Parameter]map[int]AVal
+	env0   map[ssa.Value]AVal
 }
 
 func c20StructOf(t types.Type) (*types.Struct, bool) {
@@ -1273,19 +1304,10 @@ func c20HeldResult(base ssa.Value, at ssa.Instruction) (*ssa.Call, int, bool) {
 		return nil, 0, false
 	}
 	if call, idx, ok := asResult(base); ok {
-		// a pointer result: nobody but this function holds it, and this function only reads its fields
-		if base.Referrers() != nil {
-			for _, r := range *base.Referrers() {
-				switch x := r.(type) {
-				case *ssa.FieldAddr:
-					if !c20LoadOnly(x) {
-						return nil, 0, false
-					}
-				case *ssa.BinOp, *ssa.DebugRef:
-				default:
-					return nil, 0, false
-				}
-			}
+		// a pointer result: nobody but this function holds it, and this function only reads its fields — itself, or
+		// through a module function it hands the pointer to and that only reads them (c20OnlyReads)
+		if !c20OnlyReads(base, 0) {
+			return nil, 0, false
 		}
 		return call, idx, true
 	}
@@ -1338,21 +1360,11 @@ func c20InCycle(b *ssa.BasicBlock) bool {
 	return false
 }
 
-// expandedIn: the interpreted helper calls of fn (a call inside a loop is not interpreted: its results stay unknown).
-func (fr *c20Frames) expandedIn(fn *ssa.Function) []*ssa.Call {
-	var out []*ssa.Call
-	for _, ci := range allCalls(fn) {
-		if cc, ok := ci.(*ssa.Call); ok && fr.expand[cc] && !c20InCycle(cc.Block()) {
-			out = append(out, cc)
-		}
-	}
-	return out
-}
-
 // hook: the scenario inputs, the results of the interpreted helper calls under the chosen outcomes, and the zero
 // value of the bool fields of a struct object at its allocation.
-func (fr *c20Frames) hook(ipp **Interp, choice map[*ssa.Call]*c20Res) func(in ssa.Instruction, env map[ssa.Value]AVal) (AVal, bool) {
+func (fr *c20Frames) hook(ipp **Interp, cx *c20Ctx) func(in ssa.Instruction, env map[ssa.Value]AVal) (AVal, bool) {
 	return func(in ssa.Instruction, env map[ssa.Value]AVal) (AVal, bool) {
+		choice := cx.choice // filled in while the path is followed (runTraced)
 		if a, ok := fr.base(in, env); ok {
 			return a, true
 		}
@@ -1384,6 +1396,12 @@ func (fr *c20Frames) hook(ipp **Interp, choice map[*ssa.Call]*c20Res) func(in ss
 				break
 			}
 			if fa, ok := x.X.(*ssa.FieldAddr); ok {
+				// a field of the object a parameter points to: what the caller knows about that object (c20ParamFields)
+				if p, isParam := fa.X.(*ssa.Parameter); isParam && cx.pf[p] != nil {
+					if a, ok := cx.pf[p][fa.Field]; ok {
+						return a, true
+					}
+				}
 				if call, idx, ok := c20HeldResult(fa.X, x); ok {
 					if r := choice[call]; r != nil && idx < len(r.fields) && r.fields[idx] != nil {
 						if a, ok := r.fields[idx][fa.Field]; ok {
@@ -1474,30 +1492,178 @@ func (fr *c20Frames) resOf(H *ssa.Function, ip *Interp, o Outcome) *c20Res {
 	return r
 }
 
-// choices enumerates the combinations of outcomes of the interpreted helper calls of fn.
-func (fr *c20Frames) choices(fn *ssa.Function, depth int, f func(choice map[*ssa.Call]*c20Res)) {
-	calls := fr.expandedIn(fn)
-	choice := map[*ssa.Call]*c20Res{}
-	var rec func(i int)
-	rec = func(i int) {
-		if i == len(calls) {
-			f(choice)
-			return
+// c20ResultOf: v is result idx of a call, or (field >= 0) a field read from the object that result points to.
+func c20ResultOf(v ssa.Value) (call *ssa.Call, idx, field int, ok bool) {
+	field = -1
+	if u, isLoad := v.(*ssa.UnOp); isLoad && u.Op == token.MUL {
+		fa, isField := u.X.(*ssa.FieldAddr)
+		if !isField {
+			return nil, 0, -1, false
 		}
-		for _, o := range fr.outcomes(calls[i], depth+1) {
-			choice[calls[i]] = o
-			rec(i + 1)
-		}
-		delete(choice, calls[i])
+		c, i, held := c20HeldResult(fa.X, u)
+		return c, i, fa.Field, held
 	}
-	rec(0)
+	switch x := v.(type) {
+	case *ssa.Extract:
+		if c, isCall := x.Tuple.(*ssa.Call); isCall {
+			return c, x.Index, -1, true
+		}
+	case *ssa.Call:
+		if _, isTuple := x.Type().(*types.Tuple); !isTuple {
+			return x, 0, -1, true
+		}
+	}
+	return nil, 0, -1, false
 }
 
-// outcomes: the abstract outcomes of one helper call under the current scenario.
-func (fr *c20Frames) outcomes(call *ssa.Call, depth int) []*c20Res {
+// c20OnlyReads: the pointer v (to a struct object) is used only to read fields of the object: by field loads of this
+// function, by comparisons of the pointer, or by module functions that receive it and use it in the same way.
+func c20OnlyReads(v ssa.Value, depth int) bool {
+	if depth > 3 {
+		return false
+	}
+	if v.Referrers() == nil {
+		return true
+	}
+	for _, r := range *v.Referrers() {
+		switch x := r.(type) {
+		case *ssa.FieldAddr:
+			if !c20LoadOnly(x) {
+				return false
+			}
+		case *ssa.BinOp, *ssa.DebugRef:
+		case *ssa.Call:
+			g := staticCallee(x)
+			if g == nil || g.Blocks == nil || x.Call.IsInvoke() || len(g.Params) != len(x.Call.Args) {
+				return false
+			}
+			for j, a := range x.Call.Args {
+				if a == v && !c20OnlyReads(g.Params[j], depth+1) {
+					return false
+				}
+			}
+		default:
+			return false
+		}
+	}
+	return true
+}
+
+// envBefore: the abstract environment right before the instruction `at` of block b, entered from `from` with env: the
+// phis of b take the edge of `from`, then the instructions before `at` are evaluated (blocks are straight-line).
+func (fr *c20Frames) envBefore(ip *Interp, b, from *ssa.BasicBlock, env map[ssa.Value]AVal, at ssa.Instruction) map[ssa.Value]AVal {
+	pre := copyEnv(env)
+	pi := -1
+	for i, p := range b.Preds {
+		if p == from {
+			pi = i
+		}
+	}
+	newVals := map[ssa.Value]AVal{}
+	for _, in := range b.Instrs {
+		ph, ok := in.(*ssa.Phi)
+		if !ok {
+			break
+		}
+		if ip.Hook != nil {
+			if a, ok := ip.Hook(ph, pre); ok {
+				newVals[ph] = a
+				continue
+			}
+		}
+		if from != nil && pi >= 0 && pi < len(ph.Edges) {
+			newVals[ph] = ip.val(ph.Edges[pi], pre)
+		} else {
+			newVals[ph] = top
+		}
+	}
+	for v, a := range newVals {
+		pre[v] = a
+	}
+	for _, in := range b.Instrs {
+		if in == at {
+			break
+		}
+		switch in.(type) {
+		case *ssa.Phi, *ssa.If, *ssa.Jump, *ssa.Return, *ssa.Panic:
+			continue
+		}
+		ip.eval(in, pre)
+	}
+	return pre
+}
+
+// runTraced follows every abstract path through fn and reports, with each path that ends (a return, a panic), the
+// effects on the plugin directory passed on it, in order. A block that holds an effect call or an interpreted helper
+// call is a stop of the interpreter; entering it means running it (blocks are straight-line). At a helper call the
+// helper is interpreted on the spot, with what the path knows about the arguments at that point (envBefore); the path
+// forks over the helper's outcomes: each binds the helper's results for the rest of the path (cx.choice, read by the
+// hook) and contributes the effects the helper performed on that outcome. Then the path is continued from the block.
+func (fr *c20Frames) runTraced(ip *Interp, fn *ssa.Function, cx *c20Ctx, depth int, emit func(o Outcome, trace []c20Eff)) {
+	if cx.choice == nil {
+		cx.choice = map[*ssa.Call]*c20Res{}
+	}
+	stops := map[*ssa.BasicBlock]bool{}
+	for _, b := range fn.Blocks {
+		if len(fr.items[b]) > 0 {
+			stops[b] = true
+		}
+	}
+	var cont func(start, from *ssa.BasicBlock, env map[ssa.Value]AVal, trace []c20Eff)
+	// through: the items of block b in order, then k with the effects they add
+	through := func(b, from *ssa.BasicBlock, env map[ssa.Value]AVal, trace []c20Eff, k func(trace []c20Eff)) {
+		items := fr.items[b]
+		var rec func(i int, trace []c20Eff)
+		rec = func(i int, trace []c20Eff) {
+			if fr.over {
+				return
+			}
+			if i == len(items) {
+				k(trace)
+				return
+			}
+			it := items[i]
+			if it.leaf {
+				rec(i+1, append(append([]c20Eff(nil), trace...), it.eff))
+				return
+			}
+			pre := fr.envBefore(ip, b, from, env, it.call)
+			for _, o := range fr.outcomes(it.call, depth+1, cx, ip, pre) {
+				cx.choice[it.call] = o
+				rec(i+1, append(append([]c20Eff(nil), trace...), o.trace...))
+			}
+			delete(cx.choice, it.call)
+		}
+		rec(0, trace)
+	}
+	cont = func(start, from *ssa.BasicBlock, env map[ssa.Value]AVal, trace []c20Eff) {
+		if len(trace) > 12 || fr.over {
+			fr.over = true
+			return
+		}
+		through(start, from, env, trace, func(trace []c20Eff) {
+			for _, o := range ip.Run(start, from, env, stops, nil) {
+				fr.paths++
+				if o.Stop == nil {
+					emit(o, trace)
+					continue
+				}
+				cont(o.Stop, o.From, o.Env, trace)
+			}
+		})
+	}
+	cont(fn.Blocks[0], nil, cx.env0, nil)
+}
+
+// outcomes: the abstract outcomes of one helper call, reached on a path of the caller's interpreter ip with the
+// environment pre right before the call.
+func (fr *c20Frames) outcomes(call *ssa.Call, depth int, outer *c20Ctx, ipOuter *Interp, pre map[ssa.Value]AVal) []*c20Res {
 	H := staticCallee(call)
 	nres := H.Signature.Results().Len()
 	unknown := func() []*c20Res {
+		if fr.effectful[H] {
+			fr.over = true // a helper with effects on the plugin directory must be followed
+		}
 		r := &c20Res{vals: make([]AVal, nres), fields: make([]map[int]AVal, nres)}
 		return fr.split(H, []*c20Res{r})
 	}
@@ -1515,45 +1681,56 @@ func (fr *c20Frames) outcomes(call *ssa.Call, depth int) []*c20Res {
 	}
 	fr.stack[H] = true
 	defer delete(fr.stack, H)
-	// parameters: what the scenario says about the arguments (the overwrite flag handed down as a bool)
-	env0 := map[ssa.Value]AVal{}
+	// parameters: what the caller's path knows about the arguments at the call (the overwrite flag handed down as a bool —
+	// from the install options, from a parameter of the caller, from a local the caller set on this path, or narrowed from a
+	// field of a result object), and, for a pointer to a struct object that came out of an interpreted call and is only
+	// ever read (c20HeldResult, c20OnlyReads), the bool fields of that object under the outcome chosen for that call: the
+	// object is built by the producing helper (resOf accepts an own allocation only), held by the caller and read by this
+	// helper — nobody writes it after the producer returned, so its fields are what they were at that return.
+	cx := &c20Ctx{pf: map[*ssa.Parameter]map[int]AVal{}, env0: map[ssa.Value]AVal{}, choice: map[*ssa.Call]*c20Res{}}
 	for i, p := range H.Params {
 		if i >= len(call.Call.Args) {
 			break
 		}
-		switch a := call.Call.Args[i].(type) {
-		case *ssa.Const:
-			env0[p] = (&Interp{IntTypes: map[string]bool{"*": true}}).constVal(a)
-		case ssa.Instruction:
-			if _, isPhi := a.(*ssa.Phi); !isPhi {
-				if v, ok := fr.base(a, nil); ok {
-					env0[p] = v
+		a := call.Call.Args[i]
+		if v := ipOuter.val(a, pre); v.Kind != aTop {
+			cx.env0[p] = v
+		}
+		if st, isPtr := c20StructOf(p.Type()); st != nil && isPtr && c20OnlyReads(p, 0) {
+			if pp, isParam := a.(*ssa.Parameter); isParam && outer.pf[pp] != nil {
+				cx.pf[p] = outer.pf[pp]
+			} else if rc, idx, field, ok := c20ResultOf(a); ok && field < 0 && c20OnlyReads(a, 0) {
+				if r := outer.choice[rc]; r != nil && idx < len(r.fields) && r.fields[idx] != nil {
+					cx.pf[p] = r.fields[idx]
 				}
 			}
 		}
 	}
 	var outs []*c20Res
 	seen := map[string]bool{}
-	fr.choices(H, depth, func(choice map[*ssa.Call]*c20Res) {
-		var ip *Interp
-		ip = &Interp{Fn: H, IntTypes: map[string]bool{"*": true}}
-		ip.Hook = fr.hook(&ip, choice)
-		for _, o := range ip.Run(H.Blocks[0], nil, env0, nil, nil) {
-			fr.paths++
-			if o.Ret == nil {
-				continue // a panic: the call does not return
+	var ip *Interp
+	ip = &Interp{Fn: H, IntTypes: map[string]bool{"*": true}}
+	ip.Hook = fr.hook(&ip, cx)
+	fr.runTraced(ip, H, cx, depth, func(o Outcome, trace []c20Eff) {
+		if o.Ret == nil {
+			// a panic: the call does not return; effects before it would be lost to the caller's table
+			if len(trace) > 0 {
+				fr.over = true
 			}
-			for _, r := range fr.split(H, []*c20Res{fr.resOf(H, ip, o)}) {
-				if k := r.key(); !seen[k] {
-					seen[k] = true
-					outs = append(outs, r)
-				}
-			}
+			return
 		}
-		if ip.Overflow {
-			fr.over = true
+		r0 := fr.resOf(H, ip, o)
+		r0.trace = trace
+		for _, r := range fr.split(H, []*c20Res{r0}) {
+			if k := r.key(); !seen[k] {
+				seen[k] = true
+				outs = append(outs, r)
+			}
 		}
 	})
+	if ip.Overflow {
+		fr.over = true
+	}
 	if len(outs) == 0 {
 		return unknown()
 	}
@@ -1574,7 +1751,7 @@ func (fr *c20Frames) split(H *ssa.Function, in []*c20Res) []*c20Res {
 				continue
 			}
 			for _, kind := range []int{aNil, aNonNil} {
-				c := &c20Res{vals: append([]AVal(nil), r.vals...), fields: r.fields}
+				c := &c20Res{vals: append([]AVal(nil), r.vals...), fields: r.fields, trace: r.trace}
 				c.vals[k] = AVal{Kind: kind}
 				next = append(next, c)
 			}
@@ -1626,4 +1803,917 @@ func c20DescInRoot(w *World, root *ssa.Function, at *ssa.Call, v ssa.Value) stri
 		d = substParams(d, names, descs)
 	}
 	return d
+}
+
+// ---- third pass: effects in helper frames ------------------------------------------------------------------------
+//
+// The effects of Install on the plugin directory used to be the calls in the body of Install. Code that keeps the
+// property moves them into helpers: the choice between the two copy routines becomes a method of a source object,
+// the clean-up gets a wrapper that tolerates "not exist", clean-up and copy move together into "replace the files".
+// The inventory therefore descends into a helper that only delegates (c20Dispatch), and every rule about an effect
+// is decided on the chain of frames from Install down to the effect: guards are the union of the guards of each
+// call on the chain (each rewritten into Install's frame — a parameter of a helper is what its call passes), the
+// decision table follows the helper under each scenario (c20Frames.runTraced), and the order rules are decided in the
+// innermost frame that holds both effects, with a helper call standing for the effect below it only if the helper
+// answers nil only after that effect succeeded (c20DeepSel).
+
+// c20Dispatch: the callee of ci, if the inventory looks into it instead of counting the call as one effect: a module
+// function that does not call an os mutator itself (it only delegates to functions that do), without loops, function
+// literals, defer or go — so every effect it has is a call in its body that the interpreter passes in program order —
+// called outside any loop, at most three frames below Install and not recursively.
+func c20Dispatch(w *World, ci ssa.CallInstruction, via []*ssa.Call) *ssa.Function {
+	cc, ok := ci.(*ssa.Call)
+	if !ok || len(via) >= 3 || c20InCycle(cc.Block()) {
+		return nil
+	}
+	g := staticCallee(cc)
+	if g == nil || g.Blocks == nil || !w.IsProductFn(g) || len(g.AnonFuncs) > 0 || g == cc.Parent() || len(g.Params) != len(cc.Call.Args) {
+		return nil
+	}
+	for _, v := range via {
+		if staticCallee(v) == g || v.Parent() == g {
+			return nil
+		}
+	}
+	for _, b := range g.Blocks {
+		if c20InCycle(b) {
+			return nil
+		}
+		for _, in := range b.Instrs {
+			switch x := in.(type) {
+			case *ssa.Defer, *ssa.Go, *ssa.MakeClosure:
+				return nil
+			case *ssa.Call:
+				if _, mut := c20Mutators[calleeName(x)]; mut {
+					return nil
+				}
+			}
+		}
+	}
+	return g
+}
+
+// c20SubstVia: a printed form of the frame below the last call of the chain, rewritten into the frame of the root.
+func c20SubstVia(d string, via []*ssa.Call) string {
+	for i := len(via) - 1; i >= 0; i-- {
+		H := staticCallee(via[i])
+		var names, descs []string
+		for j, p := range H.Params {
+			if j < len(via[i].Call.Args) {
+				names = append(names, p.Name())
+				descs = append(descs, desc(via[i].Call.Args[j]))
+			}
+		}
+		d = substParams(d, names, descs)
+	}
+	return d
+}
+
+// c20EnumEffects: the calls below Install that can modify files — os mutators and module functions that reach one —
+// split into those that receive the manager or a SysPath-derived path (effects on the plugin directory; a helper that
+// only delegates is looked into) and the others.
+func c20EnumEffects(w *World, INST *ssa.Function) (effects, srcOnly []c20Effect) {
+	recv := "param:" + INST.Params[0].Name()
+	var rec func(fn *ssa.Function, via []*ssa.Call)
+	rec = func(fn *ssa.Function, via []*ssa.Call) {
+		for _, ci := range allCalls(fn) {
+			name := calleeName(ci)
+			var kinds map[string]bool
+			if k, ok := c20Mutators[name]; ok {
+				kinds = map[string]bool{k: true}
+			} else if g := staticCallee(ci); g != nil && w.IsProductFn(g) {
+				kinds = c20Reach(w, g)
+			}
+			if len(kinds) == 0 {
+				continue
+			}
+			touchesDir := false
+			for _, a := range ci.Common().Args {
+				d := c20SubstVia(desc(a), via)
+				if d == recv || strings.Contains(d, "SysFS.SysPath(") {
+					touchesDir = true
+				}
+			}
+			e := c20Effect{call: ci, name: name, kind: "other", via: via}
+			if !touchesDir {
+				srcOnly = append(srcOnly, e)
+				continue
+			}
+			if g := c20Dispatch(w, ci, via); g != nil {
+				rec(g, append(append([]*ssa.Call(nil), via...), ci.(*ssa.Call)))
+				continue
+			}
+			switch {
+			case kinds["remove"]:
+				e.kind = "cleanup"
+			case kinds["write"]:
+				e.kind = "copy"
+			}
+			effects = append(effects, e)
+		}
+	}
+	rec(INST, nil)
+	return effects, srcOnly
+}
+
+// c20GuardsVia: the facts that hold whenever the instruction `site` — in the frame below the chain — runs as part of
+// Install: what must hold in Install before the first call of the chain, in each helper before the next call, and in
+// the last frame before the instruction itself; all rewritten into Install's frame. nil: not reachable.
+func c20GuardsVia(w *World, site ssa.Instruction, via []*ssa.Call) map[string]string {
+	out := map[string]string{}
+	add := func(in ssa.Instruction, chain []*ssa.Call) bool {
+		g := w.Info(in.Parent()).GuardsOf(in)
+		if g == nil {
+			return false
+		}
+		for l, pos := range g {
+			out[c20SubstVia(l, chain)] = pos
+		}
+		return true
+	}
+	for i, h := range via {
+		if !add(h, via[:i]) {
+			return nil
+		}
+	}
+	if !add(site, via) {
+		return nil
+	}
+	return out
+}
+
+// c20ItemsOf: the effects and the helper calls leading to them, per block, in instruction order.
+func c20ItemsOf(effects []c20Effect, expand map[*ssa.Call]bool) map[*ssa.BasicBlock][]c20Item {
+	items := map[*ssa.BasicBlock][]c20Item{}
+	have := map[*ssa.Call]bool{}
+	add := func(it c20Item) {
+		if have[it.call] {
+			return
+		}
+		have[it.call] = true
+		b := it.call.Block()
+		items[b] = append(items[b], it)
+		sort.SliceStable(items[b], func(i, j int) bool { return instrIndex(items[b][i].call) < instrIndex(items[b][j].call) })
+	}
+	for _, e := range effects {
+		cc, ok := e.call.(*ssa.Call)
+		if !ok {
+			continue
+		}
+		add(c20Item{call: cc, leaf: true, eff: c20Eff{e.kind, e.name}})
+		for _, h := range e.via {
+			add(c20Item{call: h})
+		}
+	}
+	// the other interpreted helper calls (on the way to an anchor); a call inside a loop is not interpreted
+	var rest []*ssa.Call
+	for h := range expand {
+		if !have[h] && !c20InCycle(h.Block()) {
+			rest = append(rest, h)
+		}
+	}
+	sort.Slice(rest, func(i, j int) bool { return rest[i].Pos() < rest[j].Pos() })
+	for _, h := range rest {
+		add(c20Item{call: h})
+	}
+	return items
+}
+
+// c20ErrNilLabels: the labels of the edge "this call returned a nil error".
+func c20ErrNilLabels(call *ssa.Call) []string {
+	d := desc(call)
+	return []string{"EQ(" + d + ",nil)", "EQ(" + d + "#err,nil)"}
+}
+
+// c20ErrNilSel selects the edges "the error of one of these calls is nil": the nil edge of a comparison of a call's
+// error result with nil — or of an error variable that holds, on every way into the comparison, the error result of
+// one of the calls (a phi whose edges all are such results: whichever of the calls ran on the path, it returned nil).
+func c20ErrNilSel(calls []*ssa.Call) EdgeSel {
+	var labels []string
+	is := map[*ssa.Call]bool{}
+	for _, c := range calls {
+		labels = append(labels, c20ErrNilLabels(c)...)
+		is[c] = true
+	}
+	var from func(v ssa.Value, depth int) bool
+	from = func(v ssa.Value, depth int) bool {
+		if depth > 4 {
+			return false
+		}
+		switch x := v.(type) {
+		case *ssa.Call:
+			return is[x] && isErrorType(x.Type())
+		case *ssa.Extract:
+			c, ok := x.Tuple.(*ssa.Call)
+			return ok && is[c] && isErrorType(x.Type())
+		case *ssa.Phi:
+			for _, e := range x.Edges {
+				if !from(e, depth+1) {
+					return false
+				}
+			}
+			return len(x.Edges) > 0
+		}
+		return false
+	}
+	byLabel := anyOf(labels...)
+	return func(l string, iff *ssa.If, truth bool) bool {
+		if byLabel(l, iff, truth) {
+			return true
+		}
+		bo, ok := iff.Cond.(*ssa.BinOp)
+		if !ok || (bo.Op != token.EQL && bo.Op != token.NEQ) || (bo.Op == token.EQL) != truth {
+			return false
+		}
+		switch {
+		case isNilConst(bo.Y):
+			_, isPhi := bo.X.(*ssa.Phi)
+			return isPhi && from(bo.X, 0)
+		case isNilConst(bo.X):
+			_, isPhi := bo.Y.(*ssa.Phi)
+			return isPhi && from(bo.Y, 0)
+		}
+		return false
+	}
+}
+
+// c20DeepSel selects the edges of the frame `level` calls below Install on which one of the effects effs (all of them
+// below that frame: their chains agree up to level) has succeeded: an edge the effect's own selector picks, if the
+// effect is a call of this frame; or the nil-error edge of the helper call leading to it, provided every nil-error exit
+// of that helper lies behind such an edge in the helper's own frame (the same question one frame down). n counts the
+// leaf edges found, so that a rule that lost its anchor is noticed.
+func c20DeepSel(w *World, level int, effs []c20Effect, leafSel func(es []c20Effect) EdgeSel) EdgeSel {
+	type helper struct {
+		labels []string
+		ok     bool
+	}
+	var leaves []EdgeSel
+	var here []c20Effect
+	helpers := map[*ssa.Call]*helper{}
+	for _, e := range effs {
+		if len(e.via) == level {
+			here = append(here, e)
+		}
+	}
+	if len(here) > 0 {
+		leaves = append(leaves, leafSel(here))
+	}
+	for _, e := range effs {
+		if len(e.via) == level {
+			continue
+		}
+		h := e.via[level]
+		if helpers[h] != nil {
+			continue
+		}
+		var below []c20Effect
+		for _, e2 := range effs {
+			if len(e2.via) > level && e2.via[level] == h {
+				below = append(below, e2)
+			}
+		}
+		H := staticCallee(h)
+		blocked, n, _ := exitsBlocked(w.Info(H), Mode{Kind: mErr}, c20DeepSel(w, level+1, below, leafSel), nil)
+		helpers[h] = &helper{labels: c20ErrNilLabels(h), ok: blocked && n > 0}
+	}
+	return func(l string, iff *ssa.If, truth bool) bool {
+		for _, s := range leaves {
+			if s(l, iff, truth) {
+				return true
+			}
+		}
+		for _, h := range helpers {
+			if !h.ok {
+				continue
+			}
+			for _, x := range h.labels {
+				if l == x {
+					return true
+				}
+			}
+		}
+		return false
+	}
+}
+
+// c20CommonFrame: the innermost frame that holds both effects — the function, the number of calls between Install and
+// it, and the instruction that stands for each effect in it (the effect call itself, or the helper call leading to it).
+func c20CommonFrame(INST *ssa.Function, a, b c20Effect) (fn *ssa.Function, level int, sa, sb ssa.Instruction) {
+	fn = INST
+	for level < len(a.via) && level < len(b.via) && a.via[level] == b.via[level] {
+		fn = staticCallee(a.via[level])
+		level++
+	}
+	sa, sb = a.call, b.call
+	if level < len(a.via) {
+		sa = a.via[level]
+	}
+	if level < len(b.via) {
+		sb = b.via[level]
+	}
+	return fn, level, sa, sb
+}
+
+// c20FieldOrigin: field `field` of the struct object that result idx of H points to (or is) holds, on every exit of H
+// that returns an object, the value of one and the same parameter of H: every returned object is an allocation of H
+// touched only field by field (c20OwnStruct) with exactly one store to that field, and all these stores store that
+// parameter. -1: not so.
+func c20FieldOrigin(H *ssa.Function, idx, field int) int {
+	if H == nil || H.Blocks == nil {
+		return -1
+	}
+	par := -1
+	n := 0
+	for _, b := range H.Blocks {
+		ret, ok := blockTerm(b).(*ssa.Return)
+		if !ok || idx >= len(ret.Results) {
+			continue
+		}
+		v := ret.Results[idx]
+		var al *ssa.Alloc
+		switch x := v.(type) {
+		case *ssa.Const:
+			if x.IsNil() {
+				continue // no object on this exit
+			}
+			return -1
+		case *ssa.Alloc:
+			al = x
+		case *ssa.UnOp:
+			if a, isAl := x.X.(*ssa.Alloc); isAl && x.Op == token.MUL && x.Block() == b {
+				clean := true
+				for _, in := range b.Instrs[instrIndex(x):] {
+					if _, isStore := in.(*ssa.Store); isStore {
+						clean = false
+					}
+				}
+				if clean {
+					al = a
+				}
+			}
+		}
+		if al == nil || !c20OwnStruct(al) {
+			return -1
+		}
+		stores := 0
+		for _, r := range *al.Referrers() {
+			fa, isField := r.(*ssa.FieldAddr)
+			if !isField || fa.Field != field || fa.Referrers() == nil {
+				continue
+			}
+			for _, rr := range *fa.Referrers() {
+				st, isStore := rr.(*ssa.Store)
+				if !isStore {
+					continue
+				}
+				stores++
+				p, isParam := st.Val.(*ssa.Parameter)
+				if !isParam || !c20Dominates(st, ret) {
+					return -1
+				}
+				k := -1
+				for j, q := range H.Params {
+					if q == p {
+						k = j
+					}
+				}
+				if k < 0 || (par >= 0 && par != k) {
+					return -1
+				}
+				par = k
+			}
+		}
+		if stores != 1 {
+			return -1
+		}
+		n++
+	}
+	if n == 0 {
+		return -1
+	}
+	return par
+}
+
+// c20FreshResult: every object result idx of H points to is an allocation of H itself that H touches only field by
+// field before it returns it (nobody else holds a reference when H returns).
+func c20FreshResult(H *ssa.Function, idx int) bool {
+	if H == nil || H.Blocks == nil {
+		return false
+	}
+	n := 0
+	for _, b := range H.Blocks {
+		ret, ok := blockTerm(b).(*ssa.Return)
+		if !ok || idx >= len(ret.Results) {
+			continue
+		}
+		switch x := ret.Results[idx].(type) {
+		case *ssa.Const:
+			if !x.IsNil() {
+				return false
+			}
+		case *ssa.Alloc:
+			if !c20OwnStruct(x) {
+				return false
+			}
+			n++
+		default:
+			return false
+		}
+	}
+	return n > 0
+}
+
+// c20Origin follows a value of the frame below the chain towards Install: a parameter of a helper is what the call of
+// the helper passes; a field read from the object a module function returned is, if the function puts one of its
+// parameters there on every exit (c20FieldOrigin) and the object is written by nobody afterwards (c20FreshResult,
+// c20OnlyReads), what the call passes for that parameter. Returned: the value where this ends and the chain of its frame.
+func c20Origin(v ssa.Value, via []*ssa.Call) (ssa.Value, []*ssa.Call) {
+	for step := 0; step < 12; step++ {
+		if p, ok := v.(*ssa.Parameter); ok && len(via) > 0 {
+			h := via[len(via)-1]
+			H := staticCallee(h)
+			idx := -1
+			for j, q := range H.Params {
+				if q == p {
+					idx = j
+				}
+			}
+			if idx < 0 || idx >= len(h.Call.Args) {
+				return v, via
+			}
+			v, via = h.Call.Args[idx], via[:len(via)-1]
+			continue
+		}
+		u, ok := v.(*ssa.UnOp)
+		if !ok || u.Op != token.MUL {
+			return v, via
+		}
+		fa, ok := u.X.(*ssa.FieldAddr)
+		if !ok {
+			return v, via
+		}
+		base, bvia := c20Origin(fa.X, via)
+		call, idx, field, ok := c20ResultOf(base)
+		if !ok || field >= 0 || !c20OnlyReads(base, 0) {
+			return v, via
+		}
+		H := staticCallee(call)
+		if H == nil || !c20FreshResult(H, idx) {
+			return v, via
+		}
+		k := c20FieldOrigin(H, idx, fa.Field)
+		if k < 0 || k >= len(call.Call.Args) {
+			return v, via
+		}
+		v, via = call.Call.Args[k], bvia
+	}
+	return v, via
+}
+
+// c20UnstableRead: v is a field read through a pointer to a heap object (not a local struct of the reading function)
+// and some function of the install tree may write that field of an object of that type after the object was handed
+// out. The rules compare printed forms of such reads ("the name that was validated is the name that is removed"); two
+// reads of the same field of the same object yield the same value only if nobody writes the field in between.
+// Decided by type: in the whole call tree below Install the only stores to that field of that struct type (and the
+// only stores of a whole object of that type) go to an allocation of the storing function that it touches field by
+// field and returns (c20OwnStruct) — a constructor filling in a fresh object nobody else can see yet. Code outside
+// the module is trusted not to write into the module's objects.
+func c20UnstableRead(w *World, INST *ssa.Function, v ssa.Value) (bool, string) {
+	u, ok := v.(*ssa.UnOp)
+	if !ok || u.Op != token.MUL {
+		return false, ""
+	}
+	fa, ok := u.X.(*ssa.FieldAddr)
+	if !ok {
+		return false, ""
+	}
+	if al, local := fa.X.(*ssa.Alloc); local {
+		// a local struct of the reading function: every store into it (whole, or to this field) comes before the read
+		if al.Referrers() != nil {
+			for _, r := range *al.Referrers() {
+				switch x := r.(type) {
+				case *ssa.Store:
+					if x.Addr == ssa.Value(al) && !c20Dominates(x, u) {
+						return true, "the local object is assigned again at " + w.InstrPos(x)
+					}
+				case *ssa.FieldAddr:
+					if x.Field != fa.Field || x.Referrers() == nil {
+						continue
+					}
+					for _, rr := range *x.Referrers() {
+						if st, isStore := rr.(*ssa.Store); isStore && st.Addr == ssa.Value(x) && !c20Dominates(st, u) {
+							return true, "field " + fieldName(al.Type(), fa.Field) + " of the local object is assigned again at " + w.InstrPos(st)
+						}
+					}
+				}
+			}
+		}
+		return false, ""
+	}
+	pt, ok := fa.X.Type().Underlying().(*types.Pointer)
+	if !ok {
+		return false, ""
+	}
+	T := pt.Elem()
+	own := func(addr ssa.Value) bool {
+		al, isAlloc := addr.(*ssa.Alloc)
+		return isAlloc && c20OwnStruct(al)
+	}
+	for _, f := range c20Tree(w, INST) {
+		for _, b := range f.Blocks {
+			for _, in := range b.Instrs {
+				st, isStore := in.(*ssa.Store)
+				if !isStore {
+					continue
+				}
+				if a, isField := st.Addr.(*ssa.FieldAddr); isField && a.Field == fa.Field {
+					if bt, isPtr := a.X.Type().Underlying().(*types.Pointer); isPtr && types.Identical(bt.Elem(), T) && !own(a.X) {
+						return true, "field " + fieldName(fa.X.Type(), fa.Field) + " is written at " + w.InstrPos(st)
+					}
+				}
+				if at, isPtr := st.Addr.Type().Underlying().(*types.Pointer); isPtr && types.Identical(at.Elem(), T) && !own(st.Addr) {
+					return true, "an object of type " + namedOf(T) + " is overwritten at " + w.InstrPos(st)
+				}
+			}
+		}
+	}
+	return false, ""
+}
+
+// ---- third pass: candidates as records ----------------------------------------------------------------------------
+//
+// The source parser used to share plain values with its walk callback: a path cell, a name cell, a bool "found", a list
+// of paths; the fallback parsed the name again from the base name of the one listed path. Code that keeps the property
+// groups path and name into a record built per entry: the callback leaves a pointer to the record of the executable in
+// a cell (nil: none found — the pointer is its own "found" mark) and appends the record of every well-named file to a
+// list; the parser returns the two fields of one record. The rules are therefore phrased on reads (c20Read: what the
+// parser returns is read from what the walk left in a cell — directly, through the record the cell points to, or
+// through element 0 of the list in the cell) and on what the callback leaves there (a value, or a record whose fields
+// it filled in this very invocation: c20RecordOf). A record, once built, is written by nobody (c20RecordsQuiet), and
+// the cells are confined to the two functions, so a field read after the walk is the value the callback put there.
+
+// c20Read: what a value of the function that started the walk is read from.
+type c20Read struct {
+	cell  int       // >= 0: read from what the walk left in this shared cell; -1: not a read of a shared cell
+	elem  bool      // through element 0 of the list the cell holds
+	field int       // >= 0: this field of the record (the one the cell points to, or the list element); -1: the content itself
+	ok    bool      // false: a read of a shared cell whose content is not decided by the walk alone
+	list  ssa.Value // elem: the list value
+}
+
+func c20IsConstInt(v ssa.Value, n int64) bool {
+	k, ok := v.(*ssa.Const)
+	if !ok || k.Value == nil || k.Value.Kind() != constant.Int {
+		return false
+	}
+	x, exact := constant.Int64Val(k.Value)
+	return exact && x == n
+}
+
+// c20PrivateCopy: al is a local object of its function that is only stored to as a whole, read, and read field by
+// field (its address goes nowhere). Returned: its only store (nil: none or several).
+func c20PrivateCopy(al *ssa.Alloc) (*ssa.Store, bool) {
+	if al.Referrers() == nil {
+		return nil, false
+	}
+	var st *ssa.Store
+	n := 0
+	for _, r := range *al.Referrers() {
+		switch x := r.(type) {
+		case *ssa.Store:
+			if x.Addr != ssa.Value(al) || x.Val == ssa.Value(al) {
+				return nil, false
+			}
+			st = x
+			n++
+		case *ssa.UnOp:
+			if x.Op != token.MUL {
+				return nil, false
+			}
+		case *ssa.FieldAddr:
+			if !c20LoadOnly(x) {
+				return nil, false
+			}
+		case *ssa.DebugRef:
+		default:
+			return nil, false
+		}
+	}
+	if n != 1 {
+		return nil, true
+	}
+	return st, true
+}
+
+// recordBase: what the address (or pointer) b of a record, used at `at` in the function that started the walk, denotes:
+// the record a shared cell points to, element 0 of the list in a shared cell (a list of records or of pointers to
+// records), or a private copy of one of these made before.
+func (k *c20Walk) recordBase(b ssa.Value, at ssa.Instruction, depth int) c20Read {
+	no := c20Read{cell: -1, field: -1}
+	if depth > 3 {
+		return no
+	}
+	elem0 := func(ia *ssa.IndexAddr) c20Read {
+		if !c20IsConstInt(ia.Index, 0) {
+			return no
+		}
+		if c, _, ok := k.value(ia.X, false); ok && c >= 0 {
+			return c20Read{cell: c, elem: true, field: -1, ok: true, list: ia.X}
+		}
+		return no
+	}
+	switch x := b.(type) {
+	case *ssa.IndexAddr:
+		return elem0(x)
+	case *ssa.UnOp:
+		if x.Op != token.MUL {
+			return no
+		}
+		if ia, ok := x.X.(*ssa.IndexAddr); ok {
+			return elem0(ia)
+		}
+		if _, _, isCell := k.loadOf(x, false); isCell {
+			if c, _, ok := k.value(x, false); ok && c >= 0 {
+				return c20Read{cell: c, field: -1, ok: true}
+			}
+		}
+	case *ssa.Alloc:
+		st, private := c20PrivateCopy(x)
+		if !private || st == nil || !c20Dominates(st, at) {
+			return no
+		}
+		if src, ok := st.Val.(*ssa.UnOp); ok && src.Op == token.MUL {
+			return k.recordBase(src.X, st, depth+1)
+		}
+	}
+	return no
+}
+
+// readOf: what the value v, used at `at` by the function that started the walk, is read from.
+func (k *c20Walk) readOf(v ssa.Value, at ssa.Instruction) c20Read {
+	plain := c20Read{cell: -1, field: -1, ok: true}
+	u, isLoad := v.(*ssa.UnOp)
+	if !isLoad || u.Op != token.MUL {
+		return plain
+	}
+	if fa, ok := u.X.(*ssa.FieldAddr); ok {
+		if _, isCell := k.outerCell(fa); !isCell {
+			if r := k.recordBase(fa.X, u, 0); r.ok && r.cell >= 0 {
+				r.field = fa.Field
+				return r
+			}
+			return plain
+		}
+	}
+	if ia, ok := u.X.(*ssa.IndexAddr); ok {
+		if r := k.recordBase(ia, u, 0); r.ok {
+			return r
+		}
+		return plain
+	}
+	c, _, ok := k.value(v, false)
+	switch {
+	case !ok:
+		return c20Read{cell: c, field: -1}
+	case c >= 0:
+		return c20Read{cell: c, field: -1, ok: true}
+	}
+	return plain
+}
+
+// c20RecordOf: v is (a pointer to, or the value of) a struct object of the callback that was filled in once — field by
+// field, or as a whole from a composite literal's temporary — before any other use. Returned: the object and the value
+// put into each field (a field never assigned is absent: it holds the zero value).
+func c20RecordOf(v ssa.Value) (*ssa.Alloc, map[int]ssa.Value, bool) {
+	al, ok := v.(*ssa.Alloc)
+	var read *ssa.UnOp // v is the value of the object, read here: everything must have been filled in before
+	if !ok {
+		u, isLoad := v.(*ssa.UnOp)
+		if !isLoad || u.Op != token.MUL {
+			return nil, nil, false
+		}
+		if al, ok = u.X.(*ssa.Alloc); !ok {
+			return nil, nil, false
+		}
+		read = u
+	}
+	if st, _ := c20StructOf(al.Type()); st == nil || al.Referrers() == nil {
+		return nil, nil, false
+	}
+	vals := map[int]ssa.Value{}
+	var whole []*ssa.Store
+	fieldStores := 0
+	for _, r := range *al.Referrers() {
+		switch x := r.(type) {
+		case *ssa.Store:
+			if x.Addr == ssa.Value(al) {
+				if read != nil && !c20Dominates(x, read) {
+					return nil, nil, false
+				}
+				whole = append(whole, x)
+			}
+		case *ssa.FieldAddr:
+			if x.Referrers() == nil {
+				continue
+			}
+			for _, rr := range *x.Referrers() {
+				if st, isStore := rr.(*ssa.Store); isStore && st.Addr == ssa.Value(x) {
+					if _, twice := vals[x.Field]; twice || (read != nil && !c20Dominates(st, read)) {
+						return nil, nil, false
+					}
+					vals[x.Field] = st.Val
+					fieldStores++
+				}
+			}
+		}
+	}
+	switch {
+	case len(whole) == 0:
+		return al, vals, true
+	case len(whole) == 1 && fieldStores == 0:
+		// *al = *tmp, tmp the temporary of a composite literal filled in right before
+		u, isLoad := whole[0].Val.(*ssa.UnOp)
+		if !isLoad || u.Op != token.MUL {
+			return nil, nil, false
+		}
+		tmp, isAlloc := u.X.(*ssa.Alloc)
+		if !isAlloc || tmp == al || !c20OwnStruct(tmp) {
+			return nil, nil, false
+		}
+		_, tv, ok := c20RecordOf(tmp)
+		if !ok {
+			return nil, nil, false
+		}
+		for _, r := range *tmp.Referrers() {
+			if fa, isField := r.(*ssa.FieldAddr); isField && fa.Referrers() != nil {
+				for _, rr := range *fa.Referrers() {
+					if st, isStore := rr.(*ssa.Store); isStore && !c20Dominates(st, u) {
+						return nil, nil, false
+					}
+				}
+			}
+		}
+		return al, tv, true
+	}
+	return nil, nil, false
+}
+
+// c20RecordsQuiet: in the given functions nobody writes into an object of struct type T that somebody else may hold:
+// every store to a field of a T, or of a whole T, goes to a private copy (c20PrivateCopy-like: a local whose address
+// goes nowhere), to an object of the storing function that is filled in, in the block that creates it, before its
+// address is used for anything else, or to the argument array of a variadic call (append).
+func c20RecordsQuiet(w *World, fns []*ssa.Function, T types.Type) (bool, string) {
+	isT := func(t types.Type) bool {
+		p, ok := t.Underlying().(*types.Pointer)
+		return ok && types.Identical(p.Elem(), T)
+	}
+	private := func(al *ssa.Alloc) bool {
+		for _, r := range *al.Referrers() {
+			switch x := r.(type) {
+			case *ssa.Store:
+				if x.Addr != ssa.Value(al) || x.Val == ssa.Value(al) {
+					return false
+				}
+			case *ssa.UnOp:
+				if x.Op != token.MUL {
+					return false
+				}
+			case *ssa.FieldAddr:
+				if x.Referrers() != nil {
+					for _, rr := range *x.Referrers() {
+						switch y := rr.(type) {
+						case *ssa.Store:
+							if y.Addr != ssa.Value(x) || y.Val == ssa.Value(x) {
+								return false
+							}
+						case *ssa.UnOp:
+							if y.Op != token.MUL {
+								return false
+							}
+						case *ssa.DebugRef:
+						default:
+							return false
+						}
+					}
+				}
+			case *ssa.DebugRef:
+			default:
+				return false
+			}
+		}
+		return true
+	}
+	// filled before handed out: every store into al (whole or field) lies in al's own block, before the first use of al
+	// that is neither a store into it nor a load from it
+	filledFirst := func(al *ssa.Alloc, st *ssa.Store) bool {
+		if st.Block() != al.Block() {
+			return false
+		}
+		for _, r := range *al.Referrers() {
+			switch x := r.(type) {
+			case *ssa.Store:
+				if x.Addr == ssa.Value(al) {
+					continue
+				}
+			case *ssa.UnOp:
+				if x.Op == token.MUL {
+					continue
+				}
+			case *ssa.FieldAddr:
+				if x.Referrers() == nil {
+					continue
+				}
+				inner := true
+				for _, rr := range *x.Referrers() {
+					switch y := rr.(type) {
+					case *ssa.Store:
+						if y.Addr != ssa.Value(x) || y.Val == ssa.Value(x) {
+							inner = false
+						}
+					case *ssa.UnOp:
+						if y.Op != token.MUL {
+							inner = false
+						}
+					case *ssa.DebugRef:
+					default:
+						inner = false
+					}
+				}
+				if inner {
+					continue
+				}
+			case *ssa.DebugRef:
+				continue
+			}
+			// a use that hands the address on
+			if r.Block() == al.Block() && instrIndex(r) < instrIndex(st) {
+				return false
+			}
+			if r.Block() != al.Block() && !al.Block().Dominates(r.Block()) {
+				return false
+			}
+		}
+		return true
+	}
+	for _, f := range fns {
+		for _, b := range f.Blocks {
+			for _, in := range b.Instrs {
+				st, ok := in.(*ssa.Store)
+				if !ok {
+					continue
+				}
+				var base ssa.Value
+				if fa, isField := st.Addr.(*ssa.FieldAddr); isField && isT(fa.X.Type()) {
+					base = fa.X
+				} else if isT(st.Addr.Type()) {
+					base = st.Addr
+				} else {
+					continue
+				}
+				switch x := base.(type) {
+				case *ssa.Alloc:
+					if private(x) || filledFirst(x, st) {
+						continue
+					}
+				case *ssa.IndexAddr:
+					if arr, isAlloc := x.X.(*ssa.Alloc); isAlloc {
+						onlySliced := true
+						for _, r := range *arr.Referrers() {
+							switch r.(type) {
+							case *ssa.IndexAddr, *ssa.Slice, *ssa.DebugRef:
+							default:
+								onlySliced = false
+							}
+						}
+						if onlySliced {
+							continue
+						}
+					}
+				}
+				return false, "an object of type " + namedOf(T) + " that may be shared is written at " + w.InstrPos(st)
+			}
+		}
+	}
+	return true, ""
+}
+
+// c20AppendOne: v is append(list, x) with exactly one appended element.
+func c20AppendOne(v ssa.Value) (list, elem ssa.Value, ok bool) {
+	call, isCall := v.(*ssa.Call)
+	if !isCall || calleeName(call) != "builtin:append" || len(call.Call.Args) != 2 {
+		return nil, nil, false
+	}
+	sl, isSlice := call.Call.Args[1].(*ssa.Slice)
+	if !isSlice || sl.Low != nil || sl.High != nil {
+		return nil, nil, false
+	}
+	al, isAlloc := sl.X.(*ssa.Alloc)
+	if !isAlloc {
+		return nil, nil, false
+	}
+	els := orderedLitElems(al)
+	if len(els) != 1 {
+		return nil, nil, false
+	}
+	return call.Call.Args[0], els[0], true
 }
